@@ -1,0 +1,15 @@
+//go:build verif
+
+package domutil
+
+// VerifStyleDisplay is the capture of rxDisplay on a style attribute ("" when it does not match).
+func VerifStyleDisplay(style string) string {
+	parts := rxDisplay.FindStringSubmatch(style)
+	if len(parts) >= 2 {
+		return parts[1]
+	}
+	return ""
+}
+
+// VerifVisHidden is rxVisibilityHidden on a style attribute.
+func VerifVisHidden(style string) bool { return rxVisibilityHidden.MatchString(style) }
